@@ -254,3 +254,148 @@ pub fn mem_case(f: MemFn, max_tokens: usize) -> impl Strategy<Value = MemCase> {
         c
     })
 }
+
+// ---------------------------------------------------------------------------------------------
+// Adjacent-pair families: a valid character immediately before / after a near-valid sequence,
+// and two boundary code units at stride-relevant distances.  They exist because a fast path may
+// carry something over from the previous character (its lead class, its row) or reduce a whole
+// stride to one value (OR / max / XOR of the lanes) - neither shows with one special unit.
+
+const TRAIL_SET: [u8; 12] = [0x41, 0x7F, 0x80, 0x8F, 0x90, 0x9F, 0xA0, 0xBF, 0xC0, 0xC3, 0xE0, 0xFF];
+const TRAIL_SET_SMALL: [u8; 5] = [0x41, 0x80, 0xBF, 0xC0, 0xFF];
+
+/// near-valid UTF-8 sequences: every lead class x boundary bytes at each trail position
+pub fn utf8_near_valid(full: bool) -> Vec<Vec<u8>> {
+    let mut v: Vec<Vec<u8>> = vec![vec![0x80], vec![0xBF], vec![0xF8], vec![0xFF], vec![0xC2], vec![0xE1], vec![0xF1], vec![0xE1, 0x80], vec![0xF1, 0x80], vec![0xF1, 0x80, 0x80]];
+    for lead in [0xC0u8, 0xC1, 0xC2, 0xDF] {
+        for a in TRAIL_SET {
+            v.push(vec![lead, a]);
+        }
+    }
+    for lead in [0xE0u8, 0xE1, 0xEC, 0xED, 0xEE, 0xEF] {
+        for a in TRAIL_SET {
+            for b in TRAIL_SET {
+                v.push(vec![lead, a, b]);
+            }
+        }
+    }
+    let small: &[u8] = if full { &TRAIL_SET } else { &TRAIL_SET_SMALL };
+    for lead in [0xF0u8, 0xF1, 0xF4, 0xF5] {
+        for a in TRAIL_SET {
+            for &b in small {
+                for &c in small {
+                    v.push(vec![lead, a, b, c]);
+                }
+            }
+        }
+    }
+    v
+}
+
+/// valid characters: for every lead class, the corners of its valid trail ranges
+pub fn utf8_valid_reps() -> Vec<Vec<u8>> {
+    let mut v: Vec<Vec<u8>> = vec![b"a".to_vec(), vec![0xC2, 0x80], vec![0xC2, 0xBF], vec![0xC3, 0xBF], vec![0xC4, 0x80], vec![0xD7, 0x90], vec![0xDF, 0x80], vec![0xDF, 0xBF]];
+    for (lead, seconds) in [(0xE0u8, &[0xA0u8, 0xBF][..]), (0xE1, &[0x80, 0x8F, 0x90, 0x9F, 0xA0, 0xBF][..]), (0xEC, &[0x80, 0x9F, 0xA0, 0xBF][..]), (0xED, &[0x80, 0x8F, 0x90, 0x9F][..]), (0xEE, &[0x80, 0x9F, 0xA0, 0xBF][..]), (0xEF, &[0x80, 0xAC, 0xB7, 0xBF][..])] {
+        for &s in seconds {
+            for t in [0x80u8, 0xBF] {
+                v.push(vec![lead, s, t]);
+            }
+        }
+    }
+    for q in [[0xF0u8, 0x90, 0x80, 0x80], [0xF0, 0xBF, 0xBF, 0xBF], [0xF0, 0x9E, 0xA0, 0x80], [0xF1, 0x80, 0x80, 0x80], [0xF3, 0xBF, 0xBF, 0xBF], [0xF4, 0x80, 0x80, 0x80], [0xF4, 0x8F, 0xBF, 0xBF]] {
+        v.push(q.to_vec());
+    }
+    v
+}
+
+/// (ASCII bytes before, ASCII bytes after) around an adjacent pair
+pub const PAIR_EMBED: [(usize, usize); 8] = [(0, 0), (0, 1), (0, 14), (3, 17), (13, 0), (13, 14), (3, 1), (14, 33)];
+
+pub fn embed_pair8(a: &[u8], b: &[u8], pre: usize, tail: usize) -> Vec<u8> {
+    let mut v = Vec::with_capacity(pre + a.len() + b.len() + tail);
+    v.extend((0..pre).map(|i| b'a' + (i % 26) as u8));
+    v.extend_from_slice(a);
+    v.extend_from_slice(b);
+    v.extend((0..tail).map(|i| b'A' + (i % 26) as u8));
+    v
+}
+
+/// boundary UTF-16 code units (Latin1 / bidi range / surrogate / special edges)
+pub const UNIT_EDGES16: [u16; 48] = [
+    0x007F, 0x0080, 0x00FF, 0x0100, 0x058F, 0x0590, 0x05D0, 0x07FF, 0x0800, 0x08FF, 0x0900, 0x0E01, 0x1FFF, 0x2000, 0x200E, 0x200F, 0x2010, 0x202A, 0x202B, 0x202E, 0x202F, 0x2066, 0x2067, 0x2068, 0x3042, 0xD7FF, 0xD800,
+    0xD802, 0xD803, 0xD83A, 0xD83B, 0xD83D, 0xDBFF, 0xDC00, 0xDE00, 0xDFFF, 0xE000, 0xFB1C, 0xFB1D, 0xFDFF, 0xFE00, 0xFE6F, 0xFE70, 0xFEFE, 0xFEFF, 0xFF0C, 0xFFFD, 0xFFFF,
+];
+
+/// (position of the first unit, distance to the second, units after the second)
+pub fn pair_layouts16() -> Vec<(usize, usize, usize)> {
+    let mut v = Vec::new();
+    for p in [0usize, 5, 15, 16, 17] {
+        for d in [1usize, 2, 7, 8, 9, 15, 16] {
+            for t in [1usize, 16] {
+                v.push((p, d, t));
+            }
+        }
+    }
+    v
+}
+
+pub fn embed_pair16(a: u16, b: u16, p: usize, d: usize, t: usize) -> Vec<u16> {
+    let mut v: Vec<u16> = (0..p + d + 1 + t).map(|i| 0x61 + (i % 26) as u16).collect();
+    v[p] = a;
+    v[p + d] = b;
+    v
+}
+
+/// Table sweep: every (lead, second) pair, every three-byte string with a three-byte lead, every
+/// four-byte lead x second x third (and, for boundary seconds, every fourth byte) - one cell of
+/// a lookup table being wrong is otherwise a one-in-65536 event.  Calls `f` with each sequence
+/// of lane `lane` of `lanes`.
+pub fn utf8_table_sweep(lane: usize, lanes: usize, mut f: impl FnMut(&[u8]) -> bool) -> bool {
+    let mut k = 0usize;
+    let mut go = |s: &[u8]| -> bool {
+        k += 1;
+        if k % lanes != lane {
+            return true;
+        }
+        f(s)
+    };
+    for a in 0x80..=0xFFu8 {
+        for b in 0..=0xFFu8 {
+            if !go(&[a, b]) {
+                return false;
+            }
+        }
+    }
+    for a in 0xE0..=0xEFu8 {
+        for b in 0..=0xFFu8 {
+            for c in 0..=0xFFu8 {
+                if !go(&[a, b, c]) {
+                    return false;
+                }
+            }
+        }
+    }
+    for a in 0xF0..=0xF7u8 {
+        for b in 0..=0xFFu8 {
+            for c in 0..=0xFFu8 {
+                for d in [0x80u8, 0xBF, 0x41] {
+                    if !go(&[a, b, c, d]) {
+                        return false;
+                    }
+                }
+            }
+        }
+    }
+    for a in 0xF0..=0xF4u8 {
+        for b in [0x80u8, 0x8F, 0x90, 0x9F, 0xA0, 0xBF] {
+            for c in [0x80u8, 0xBF] {
+                for d in 0..=0xFFu8 {
+                    if !go(&[a, b, c, d]) {
+                        return false;
+                    }
+                }
+            }
+        }
+    }
+    true
+}
